@@ -20,6 +20,11 @@ pub struct Restrictions {
     pub acceptable_list_type: Option<RustFieldType>,
 }
 
+/// a numeric facet is only emitted when its value really is a number of the facet's type
+fn numeric_facet<N: std::str::FromStr>(value: Option<&String>) -> Option<N> {
+    value.and_then(|v| v.trim().parse::<N>().ok())
+}
+
 impl<W> WriteXml<W> for Restrictions
 where
     W: io::Write,
@@ -29,25 +34,25 @@ where
         // and write that to the fn write_xml(&self, writer: &mut W) -> WriterResult<()> {
 
         writeln!(writer, "Rc::new(restrictions::Restrictions {{")?;
-        if let Some(min_inclusive) = &self.min_inclusive {
+        if let Some(min_inclusive) = numeric_facet::<i32>(self.min_inclusive.as_ref()) {
             writeln!(writer, "   min_inclusive: Some({min_inclusive}), ")?;
         }
-        if let Some(max_inclusive) = &self.max_inclusive {
+        if let Some(max_inclusive) = numeric_facet::<i32>(self.max_inclusive.as_ref()) {
             writeln!(writer, "   max_inclusive: Some({max_inclusive}), ")?;
         }
-        if let Some(min_exclusive) = &self.min_exclusive {
+        if let Some(min_exclusive) = numeric_facet::<i32>(self.min_exclusive.as_ref()) {
             writeln!(writer, "   min_exclusive: Some({min_exclusive}), ")?;
         }
-        if let Some(max_exclusive) = &self.max_exclusive {
+        if let Some(max_exclusive) = numeric_facet::<i32>(self.max_exclusive.as_ref()) {
             writeln!(writer, "   max_exclusive: Some({max_exclusive}), ")?;
         }
-        if let Some(length) = &self.length {
+        if let Some(length) = numeric_facet::<usize>(self.length.as_ref()) {
             writeln!(writer, "   length: Some({length}), ")?;
         }
-        if let Some(min_length) = &self.min_length {
+        if let Some(min_length) = numeric_facet::<usize>(self.min_length.as_ref()) {
             writeln!(writer, "   min_length: Some({min_length}), ")?;
         }
-        if let Some(max_length) = &self.max_length {
+        if let Some(max_length) = numeric_facet::<usize>(self.max_length.as_ref()) {
             writeln!(writer, "   max_length: Some({max_length}), ")?;
         }
 
